@@ -21,6 +21,7 @@ replacement table and the numeric-reference value function of both tokenizers ar
 interval by interval with independent oracles (CPython's html.entities.html5, the cp1252 codec, the WHATWG numeric
 table restated in the rule); longest-match bookkeeping of the character-reference sub-tokenizers is compared in
 normal form with the reviewed reference.  The PHF lookup itself (phf crate) is trusted.
+R14.6 semicolon before legacy exception, characters taken from name_buf; R14.7 in-attribute flag over all AttributeValue states.
 """
 ASSUMPTIONS = ["CPython html.entities.html5 is a faithful transcription of WHATWG entities.json", "phf::Map lookup is correct", "ref/*_tokenizer.json char-ref normal forms were reviewed"]
 _st = {"n": 0, "programs": 0}
